@@ -985,6 +985,206 @@ def gen_program(rng, profile, size=None):
 
 
 # ------------------------------------------------------------------------------------------------
+# locals boundary: every construct that adds a hidden or implicit local, as the last / second-to-last declaration of
+# a function filled up to the locals limit.  The verifier cannot see a silently dropped local (heights stay
+# consistent on every path), so the oracle is: compile error, OR the program runs and every variable read after
+# the construct yields its own value (expected output known by construction = the Spec).
+
+BOUNDARY_MODULES = {"m": "var q = 3;"}
+BOUNDARY_PRELUDE = "class B0 { fn m(self) { return 1; } }\n"
+BOUNDARY_CONSTRUCTS = [
+    # name, source, lines it prints
+    ("for_empty_body", "for x in [1, 2] {}", []),
+    ("for_with_body_local", "for x in [1, 2] { var y = x; print(y); }", ["1", "2"]),
+    ("derived_class(super)", "#[constructor(new), derive(B0)] class D { fn m(self) { return super.m() + 1; } } print(D.new().m());", ["2"]),
+    ("class", "#[constructor(new)] class C { fn m(self) { return 4; } } print(C.new().m());", ["4"]),
+    ("catch_variable", 'try { throw "e"; } catch e { var c = e; print(c); }', ["e"]),
+    ("nested_fn", "fn g() { return 7; } print(g());", ["7"]),
+    ("lambda_block", "var g = |a, b| { var t = a + b; return t; }; print(g(1, 2));", ["3"]),
+    ("import_as", 'import "m" as mm; print(mm.q);', ["3"]),
+    ("nested_blocks", "{ var a = 1; { var b = 2; { var c = 3; print(a + b + c); } } }", ["6"]),
+    ("while_body_local", "var i = 0; while i < 2 { var t = i; print(t); i = i + 1; }", ["0", "1"]),
+    ("closure_over_last", "var g = || v%(last)d; print(g());", ["%(last)d"]),
+    ("for_in_for", "for x in [1] { for y in [2] { print(x + y); } }", ["3"]),
+]
+BOUNDARY_KS = list(range(248, 258))
+BOUNDARY_TAILS = ("last", "then_var", "then_two")
+
+
+def boundary_program(name, construct, prints, k, tail):
+    last = k - 1
+    pre = "".join("var v%d = %d;" % (i, i) for i in range(k))
+    body = construct % {"last": last} if "%(" in construct else construct
+    exp = [p % {"last": last} if "%(" in p else p for p in prints]
+    if tail == "then_var":      # the construct is the second-to-last declaration
+        t = 'var w = "w"; print(w); print(v0); print(v%d);' % last
+        exp = exp + ["w", "0", str(last)]
+    elif tail == "then_two":    # ... the third-to-last
+        t = 'var w = "w"; print(w); var z = 5; print(z); print(w); print(v0); print(v%d);' % last
+        exp = exp + ["w", "5", "w", "0", str(last)]
+    else:                       # the construct is the last declaration
+        t = "print(v0); print(v%d);" % last
+        exp = exp + ["0", str(last)]
+    return BOUNDARY_PRELUDE + "fn f() { %s %s %s }\nf();" % (pre, body, t), exp
+
+
+def params_program(k, tail):
+    ps = ", ".join("p%d" % i for i in range(k))
+    args = ", ".join(str(i) for i in range(k))
+    if tail == "then_var":
+        return 'fn f(%s) { var w = "w"; print(w); print(p0); print(p%d); }\nf(%s);' % (ps, k - 1, args), ["w", "0", str(k - 1)]
+    if tail == "then_two":
+        return 'fn f(%s) { var w = "w"; print(w); var z = 5; print(z); print(w); print(p0); print(p%d); }\nf(%s);' % (ps, k - 1, args), ["w", "5", "w", "0", str(k - 1)]
+    return "fn f(%s) { print(p0); print(p%d); }\nf(%s);" % (ps, k - 1, args), ["0", str(k - 1)]
+
+
+def run_sources(binary, sources):
+    """-> list of (result kind, output lines, detail); modules of BOUNDARY_MODULES are available to import"""
+    mods = " ".join("%s=%s" % (hx(n), hx(t)) for n, t in BOUNDARY_MODULES.items())
+    recs = yvlib.run_harness(binary, ["mods - %s %s" % (hx(s), mods) for s in sources], case_timeout_ms=30000)
+    return [(r.result[0], r.output, (r.result[1] if r.result[0] != "ok" else "") + " " + " | ".join(r.messages[:2])) for r in recs]
+
+
+def locals_boundary(binary):
+    """-> (table rows, items to verify, failures [(what, source, expected, actual)])"""
+    plans = []
+    for name, construct, prints in BOUNDARY_CONSTRUCTS:
+        for tail in BOUNDARY_TAILS:
+            for k in BOUNDARY_KS:
+                src, exp = boundary_program(name, construct, prints, k, tail)
+                plans.append((name, tail, k, src, exp))
+    for tail in BOUNDARY_TAILS:
+        for k in range(250, 257):
+            src, exp = params_program(k, tail)
+            plans.append(("parameters+slot0", tail, k, src, exp))
+    comp = compile_sources(binary, [p[3] for p in plans])
+    runs = run_sources(binary, [p[3] for p in plans])
+    rows, items, failures = {}, [], []
+    for (name, tail, k, src, exp), c, r in zip(plans, comp, runs):
+        row = rows.setdefault((name, tail), {"family": "locals_boundary:%s:%s" % (name, tail), "sizes": [], "compile": "",
+                                             "largest_ok": None, "messages": set(), "status": "ok"})
+        row["sizes"].append(k)
+        if c[0] == "ok":
+            row["compile"] += "O"
+            row["largest_ok"] = k
+            items.append(Item("boundary:%s:%s:%d" % (name, tail, k), src, c[1], "limit", {"expected_output": exp}))
+            if r[0] != "ok" or r[1] != exp:
+                row["status"] = "WRONG-OUTPUT at %d" % k
+                failures.append(("program at the locals limit (%s, %d plain locals) is accepted and misbehaves: a variable does not "
+                                 "read its own value" % (name, k), src, exp, r[1] + ([r[0] + ":" + r[2].strip()] if r[0] != "ok" else [])))
+        elif c[0] == "err":
+            row["compile"] += "E"
+            row["messages"].add((c[1][0] if c[1] else "").split("] ", 1)[-1][:80])
+        else:
+            row["compile"] += "X"
+            row["status"] = "COMPILER-CRASH at %d" % k
+            failures.append(("compiler crashed on a locals-boundary program (%s)" % name, src, "Ok or Err", str(c[1])[:200]))
+    out = []
+    for row in rows.values():
+        row["messages"] = sorted(row["messages"])
+        v = row["compile"]
+        if "O" not in v or "E" not in v or "EO" in v:
+            # the sweep must bracket the limit and the verdict must be monotone in the number of locals
+            row["status"] = "NOT-BRACKETED" if row["status"] == "ok" else row["status"]
+        out.append(row)
+    return out, items, failures
+
+
+# ------------------------------------------------------------------------------------------------
+# operand SUMS: PushExcHandler carries two u16 operands that the VM ADDS (finally_ip = ip + try + catch).  The compiler
+# bounds each by 65535 separately, so an accepted try statement may have |try| + |catch| up to 131070.  Programs
+# with the sum on both sides of 2^16 are RUN in the debug and the release build (a narrow addition panics in the
+# former and wraps in the latter: `return` inside the try lands in the middle of the try block); the expected
+# output is known by construction.  (A `break` variant does not exist: a loop around such a statement exceeds the
+# Loop limit.)  The static side of the same fact is the regenerated table gen/OperandArith.v.
+
+SUM_TARGETS = [
+    # (|try| + |catch|, share of the try block, with finally)
+    (65534, 0.5, True), (65535, 0.5, True), (65536, 0.5, True), (65537, 0.5, True), (74000, 0.5, True),
+    (131000, 0.5, True), (65536, 0.02, True), (65600, 0.9, True),
+    (65535, 0.5, False), (65536, 0.5, False), (131000, 0.5, False),
+]
+
+
+def sum_program(nt, nc, p2, p3, fin):
+    fill = "x = x + 1;"
+    src = ["fn f(mode) {", "var x = 0;", "try {",
+           'if mode == 1 { return "returned"; }' if fin else "",
+           'if mode == 2 { throw "boom"; }', fill * nt, 'if mode == 4 { throw "late"; }',
+           "} catch e {", 'print("caught ${e}, x = ${x}");', fill * nc, "nil;" * p2, "!nil;" * p3, "}"]
+    if fin:
+        src += ["finally {", 'print("finally, x = ${x}");', "}"]
+    src += ['return "end x=${x}";', "}"]
+    exp = []
+    modes = [1, 2, 0, 4] if fin else [2, 0, 4]
+    for m in modes:
+        src.append("print(f(%d));" % m)
+        if m == 1:
+            exp += ["finally, x = 0", "returned"]
+        elif m == 2:
+            exp += ["caught boom, x = 0"] + (["finally, x = %d" % nc] if fin else []) + ["end x=%d" % nc]
+        elif m == 0:
+            exp += (["finally, x = %d" % nt] if fin else []) + ["end x=%d" % nt]
+        else:
+            exp += ["caught late, x = %d" % nt] + (["finally, x = %d" % (nt + nc)] if fin else []) + ["end x=%d" % (nt + nc)]
+    return "\n".join(x for x in src if x), exp
+
+
+def operand_sum_family(binaries):
+    """binaries: {'release': path, 'debug': path} -> (rows, items, failures)"""
+    rel = binaries["release"]
+    rows, items, failures, plans = [], [], [], []
+    for fin in (True, False):
+        cal = compile_sources(rel, [sum_program(10, 10, 0, 0, fin)[0], sum_program(11, 10, 0, 0, fin)[0], sum_program(10, 11, 0, 0, fin)[0]])
+        if any(c[0] != "ok" for c in cal):
+            rows.append({"family": "try_catch_sum", "error": "calibration program did not compile"})
+            continue
+        ab = [(_first(c[1], "PushExcHandler", "a", fn_idx=1), _first(c[1], "PushExcHandler", "b", fn_idx=1)) for c in cal]
+        if any(None in x for x in ab):
+            rows.append({"family": "try_catch_sum", "error": "calibration: PushExcHandler not found"})
+            continue
+        ut, uc = ab[1][0] - ab[0][0], ab[2][1] - ab[0][1]
+        a0, b0 = ab[0][0] - 10 * ut, ab[0][1] - 10 * uc
+        for (S, share, f_) in SUM_TARGETS:
+            if f_ != fin:
+                continue
+            nt = max(0, (int(S * share) - a0) // ut)
+            a = a0 + ut * nt
+            nc = max(0, (S - a - b0) // uc - 1)
+            delta = S - a - (b0 + uc * nc)
+            p3 = delta % 2
+            p2 = (delta - 3 * p3) // 2
+            plans.append((S, share, fin, nt, nc, p2, p3))
+    srcs = [sum_program(nt, nc, p2, p3, fin) for (S, share, fin, nt, nc, p2, p3) in plans]
+    comp = compile_sources(rel, [x[0] for x in srcs], timeout_ms=120000)
+    runs = {b: run_sources(path, [x[0] for x in srcs]) for b, path in binaries.items()}
+    for i, ((S, share, fin, nt, nc, p2, p3), (src, exp), c) in enumerate(zip(plans, srcs, comp)):
+        row = {"family": "try_catch_sum(%s)" % ("try/catch/finally" if fin else "try/catch"), "bound": 131070, "size": S,
+               "expected_compile": "ok", "compile": c[0], "src_len": len(src), "status": "ok"}
+        if c[0] != "ok":
+            row["status"] = "REJECTED" if c[0] == "err" else "COMPILER-CRASH"
+            row["message"] = str(c[1])[:120]
+            failures.append(("try statement with |try| + |catch| = %d (each part < 65536) does not compile" % S, src, exp, [str(c[1])[:200]], "compile"))
+            rows.append(row)
+            continue
+        a, b = _first(c[1], "PushExcHandler", "a", fn_idx=1), _first(c[1], "PushExcHandler", "b", fn_idx=1)
+        row["operand"] = "%s+%s=%s" % (a, b, a + b)
+        if a + b != S:
+            row["status"] = "SUM-MISSED"      # generator problem, not the compiler's: the boundary was not hit
+        for bname, rr in runs.items():
+            r = rr[i]
+            okrun = r[0] == "ok" and r[1] == exp
+            row["run_" + bname] = "as expected" if okrun else "%s: %s" % (r[0], (r[2].strip() or " / ".join(r[1]))[:120])
+            if not okrun:
+                row["status"] = "WRONG-BEHAVIOUR(%s)" % bname
+                failures.append(("try statement with |try| + |catch| = %d bytes (%d + %d, each a valid u16 operand) misbehaves in the %s build"
+                                 % (a + b, a, b, bname), src, exp, r[1] + ([r[0] + ": " + r[2].strip()[:200]] if r[0] != "ok" else []), bname))
+        items.append(Item("limit:%s:%d:%s" % (row["family"], S, share), None, c[1], "limit", row))
+        rows.append(row)
+    return rows, items, failures
+
+
+# ------------------------------------------------------------------------------------------------
 # the check
 
 CORE_YL = os.path.join(yvlib.REPO, "yarel", "src", "core.yl")
@@ -1087,6 +1287,15 @@ def run(ctx):
                 for (k, fn, vd) in unknown_flags(it):
                     ctx.violation("compiled function rejected by the bytecode verifier", input=src, expected="OK, unique heights",
                                   actual=vd["raw"][:300], **describe(it, k, fn, vd))
+                eo = ctx.replay_only.get("expected_output")
+                if isinstance(eo, list):
+                    for bname in ("release", "debug"):
+                        rr = run_sources(ctx.harness(bname), [src])[0]
+                        if rr[0] != "ok" or rr[1] != eo:
+                            ctx.violation("accepted program at an encoding boundary misbehaves (%s build)" % bname, input=src,
+                                          expected="compile error, or output " + json.dumps(eo),
+                                          actual="output " + json.dumps(rr[1]) + " " + rr[0] + " " + rr[2].strip()[:200], expected_output=eo, build=bname)
+                            break
                 if exp == "compile error" and not ctx.violations:
                     ctx.violation("program past an encoding limit compiles", input=src, expected="compile error", actual="Ok")
             elif r[0] == "crash":
@@ -1136,6 +1345,10 @@ def run(ctx):
     # ---- 4. limit family
     rows, litems, lsrc = limit_family(binary, quick)
     items += litems
+    brows, bitems, bfail = locals_boundary(binary)
+    items += bitems
+    srows, sitems, sfail = operand_sum_family({"release": binary, "debug": ctx.harness("debug")})
+    items += sitems
     log("[C04] compiled everything in %.1fs" % (_t.time() - t_start))
     # ---- wire self-test: the model must see exactly the bytes the compiler produced
     probe = [it for it in items if sum(len(f.code) for f in it.tree if f) < 3000][:6] + litems[:1]
@@ -1223,6 +1436,24 @@ def run(ctx):
             viol.append(("constant operand out of range", Item("limit:%s" % row["family"], src, None, "limit"), "limit"))
         else:
             row["status"] = "ok"
+    for row in brows:
+        if row["status"] == "NOT-BRACKETED":
+            ctx.corr_broken.append("locals boundary %s: sweep %s does not bracket the limit monotonically (%s)" % (row["family"], row["sizes"], row["compile"]))
+        it_flag = [it for it in bitems if it.label.startswith("boundary:" + row["family"].split(":", 1)[1] + ":") and it.head.get("ALL") != "T"]
+        row["verifier"] = "OK unique on all %d accepted" % row["compile"].count("O") if not it_flag else "FLAGGED: " + ", ".join(i.label for i in it_flag[:3])
+    for row, it in zip([r for r in srows if r.get("compile") == "ok"], sitems):
+        if it.head.get("ALL") != "?":
+            row["verifier"] = ("OK unique" if it.head.get("ALL") == "T" else "FLAGGED " + "; ".join(
+                "%s [%s]" % (vd["raw"][:60], ",".join(cls) if cls else "UNKNOWN") for (k, fn, vd, cls) in it.flags))
+    for row in srows:
+        if "error" in row:
+            ctx.corr_broken.append("operand-sum family: " + row["error"])
+        elif row["status"] == "SUM-MISSED":
+            ctx.corr_broken.append("operand-sum family: target %s not hit exactly (%s)" % (row["size"], row.get("operand")))
+    for (what, src, exp, act, bname) in sfail:
+        viol.append((what, Item("operand_sum", src, None, "limit", {"expected_output": exp, "actual_output": act, "build": bname}), "boundary"))
+    for (what, src, exp, act) in bfail:
+        viol.append((what, Item("boundary", src, None, "limit", {"expected_output": exp, "actual_output": act}), "boundary"))
     # ---- report violations (first one shrunk)
     fails = failing_predicate(binary, "C04")
     for n, (what, it, info) in enumerate(viol[:5]):
@@ -1243,6 +1474,11 @@ def run(ctx):
                         extra = describe(it2, *uf[0])
         if src is None and it.tree is not None:
             src = "(no source: %s) wire=%s" % (it.label, wire_with(it.tree)[0][:2000])
+        if info == "boundary":
+            ctx.violation(what, input=src, expected="compile error, or output " + json.dumps(it.meta["expected_output"]),
+                          actual="compiler said Ok; output " + json.dumps(it.meta["actual_output"]), expected_output=it.meta["expected_output"],
+                          **({"build": it.meta["build"]} if "build" in it.meta else {}))
+            continue
         ctx.violation(what, input=src if src is None or len(src) < 200000 else src[:1000] + "...(%d bytes; family program, rebuild with tools/props/C04.py limit_family)" % len(src),
                       expected="compile error" if info == "limit" else "verifier: OK with unique heights", actual=extra.get("verdict", "compiler said Ok"),
                       label=it.label, **{k_: v_ for k_, v_ in extra.items() if k_ != "verdict"})
@@ -1277,7 +1513,8 @@ def run(ctx):
         "known_class_histogram": class_hist, "known_class_witnesses": {c: w["source"][:600] for c, w in witnesses.items()},
         "groups": group_hist, "scripts": counts, "core_classes": ncore,
         "generated": {"clean": n_clean, "full": n_full, "compile_errors": gen_err, "feature_histogram": feature_hist},
-        "limit_family": [{k_: v_ for k_, v_ in r.items() if k_ not in ("line_table_ok",)} for r in rows],
+        "limit_family": [{k_: v_ for k_, v_ in r.items() if k_ not in ("line_table_ok",)} for r in rows] + brows + srows,
+        "locals_boundary_programs": sum(len(r["sizes"]) for r in brows),
         "samples": [sample_ok.src[:500] if sample_ok else "", next((r_["family"] + ":" + str(r_["size"]) for r_ in rows if "size" in r_), "")],
         "traces_validated_against_impl": len(items),
         "disagreements_checked": sum(len(it.flags) for it in items),
